@@ -1165,6 +1165,10 @@ pub fn trace(prop: &str, seed: u64, index: u64, p: &Profile) -> Trace {
     for (ci, ch) in chunks.into_iter().enumerate() {
         if switching && rs.chance(1, 6) {
             steps.push(Step::Charset(rs.pick(&["@", "G", "8", "x"]).to_string()));
+            // a switch and an immediate switch back, with nothing fed in between
+            if rs.chance(1, 3) {
+                steps.push(Step::Charset(rs.pick(&["@", "G", "8"]).to_string()));
+            }
         }
         steps.push(Step::Feed(ch));
         match wiring {
